@@ -6,3 +6,39 @@ def _(cls: "any", data: "bytes", xor_keys: "any", all_xor_keys: "bool"):
     """safety contract used by callers: only the documented ValueError escapes (C08)"""
     raises(ValueError)
     returns("any")
+
+
+@lemma(props=["C02", "C08", "C01"])
+def nul_from_is(B: "bytes", q: "int", x: "int"):
+    """characterisation of the next NUL: nothing but non-NUL bytes in [q, x) and x is a NUL or the end of the data"""
+    requires(0 <= q, q <= x, x <= len(B), forall(lambda i: B[i] != 0, q, x), x == len(B) or B[x] == 0)
+    ensures(nul_from(B, q) == x)
+    decreases(x - q)
+    if q < x:
+        nul_from_is(B, q + 1, x)
+
+
+@contract("dissect.cobaltstrike.beacon:iter_settings", mode="all", props=["C02", "C08", "C01"])
+def _(fobj: "bytes"):
+    """the settings in on-disk order with index, type, length and value exactly as serialized (spec tlv), ended by a zero
+    index / a record that does not fit / end of data; bytes after the terminator never influence the result; the
+    over-long User-Agent continues to its NUL; index 36 is named by its type; terminates for every block"""
+    yields("tuple[int,int,int,int,int,bytes]")
+    terminates()
+    ensures(snapshots(yielded) == tlv(fobj, 0))
+    ghost(entry=True, do=[let("B", fobj)])
+    loop(0, invariant=[
+        file_content(fobj) == B, 0 <= file_pos(fobj), file_pos(fobj) <= len(B),
+        tlv(B, 0) == yielded + tlv(B, file_pos(fobj))],
+        decreases=len(B) - file_pos(fobj))
+    ghost(loop_head=0, do=[let("p", file_pos(fobj))])
+    loop(1, invariant=[
+        file_content(fobj) == B, p + 6 + 128 <= file_pos(fobj), file_pos(fobj) <= len(B),
+        setting.value == sub(B, p + 6, file_pos(fobj)), setting.length == 128,
+        same_enum(setting.index, BeaconSetting.SETTING_USERAGENT), setting.type == be16(B, p + 2),
+        forall(lambda i: B[i] != 0, p + 6 + 128, file_pos(fobj))],
+        decreases=len(B) - file_pos(fobj))
+    ghost(loop_exit=1, do=[nul_from_is(B, p + 6 + 128, file_pos(fobj)),
+                           assert_(rec_end(B, p) == file_pos(fobj)),
+                           assert_(setting.value == B[p + 6:rec_end(B, p)])])
+    domain(fobj=gen_config_blocks())
